@@ -126,10 +126,13 @@ def arc_model(F):
             rets = [strip_cast(p.ret) for p in ex.run(AP + "::len", setup=setup) if p.kind == "return"]
             if len(rets) == 1 and rets[0][0] == "sym" and rets[0][1][0] == "FIELD":
                 lenfield[var["name"]] = rets[0][1][1]
-        ex = explore.Explorer(F)
+        # private constructors of the payload type (a shared "copy into the inline buffer" helper) are part of new()
+        ex = explore.Explorer(F, inline_pred=lambda exx, callee, info: callee.get("kind") == "Closure" or (
+            (callee.get("impl_self") or "").split("<")[0] == AP and not callee.get("pub") and callee.get("kind") == "AssocFn"))
         fn = F.fns[AP + "::new"]
         names = fn.get("names", {})
         news = [p.ret for p in ex.run(AP + "::new") if p.kind == "return"]
+        lin_n = linear.Lin(lambda t: conn.expand_all(ex.interned_rev, t))
         defs = [p.ret for p in ex.run("<" + AP + " as std::default::Default>::default") if p.kind == "return"]
         argi = None
         okn = bool(news) and len(lenfield) == len(variants)
@@ -139,6 +142,10 @@ def arc_model(F):
                 break
             v = strip_cast(conn.expand_all(ex.interned_rev, r[3][lenfield[r[2]]]))
             k = [k for k in range(1, fn["argc"] + 1) if v == ("sym", ("arg", names.get(str(k))))]
+            if not k:
+                # the same number spelled differently: `bytes.len()` of `&data[start..start + length]` is `length`
+                lv = lin_n.of_value(v)
+                k = [k for k in range(1, fn["argc"] + 1) if lv == lin_n.of_value(("sym", ("arg", names.get(str(k)))))]
             if not k or (argi is not None and argi != k[0]):
                 okn = False
                 break
